@@ -11,6 +11,8 @@ Package ids are positions in the list. Query pool: types and names in order of f
 import Scalibr.Base.Wire
 import Scalibr.Base.Sort
 import Scalibr.Spec.Index
+import Scalibr.Model.ProtoPkg
+import Scalibr.Gen.Purl
 open Scalibr Scalibr.Wire Scalibr.Index
 
 def unhex? (s : String) : Option String := if s = "-" then some "" else strOfHex s
@@ -37,6 +39,78 @@ def observe (types names : List String) (all : List Pkg) (ofType : String → Li
   let s := types.flatMap fun t => names.map fun n => s!"S{hexE t}:{hexE n}={idsStr (spec n t) false}"
   ";".intercalate (a ++ t ++ s)
 
+/-! ### `proto` cases (grammar: harness/cmd/c14gen/protopurl.go) -/
+def itemsOf? (s : String) : Option (List String) := if s = "_" then some [] else (s.splitOn ",").mapM unhex?
+
+def itemsStr (xs : List String) : String := if xs.isEmpty then "_" else ",".intercalate (xs.map hexE)
+
+def qualsOf? (s : String) : Option (List (String × String)) :=
+  if s = "_" then some [] else (s.splitOn ";").mapM fun q =>
+    match q.splitOn "=" with
+    | [k, v] => match unhex? k, unhex? v with
+      | some k, some v => some (k, v)
+      | _, _ => none
+    | _ => none
+
+def qualsStr (qs : List (String × String)) : String :=
+  if qs.isEmpty then "_" else ";".intercalate (qs.map fun (k, v) => hexE k ++ "=" ++ hexE v)
+
+def purlOf? (s : String) : Option (Option ProtoPkg.Purl) :=
+  if s = "_" then some none else
+  match s.splitOn ":" with
+  | [t, ns, n, v, qs, sub] =>
+    match unhex? t, unhex? ns, unhex? n, unhex? v, qualsOf? qs, unhex? sub with
+    | some t, some ns, some n, some v, some qs, some sub => some (some ⟨t, ns, n, v, qs, sub⟩)
+    | _, _, _, _, _, _ => none
+  | _ => none
+
+def srcOf? (s : String) : Option (Option ProtoPkg.SourceCode) :=
+  if s = "_" then some none else
+  match s.splitOn ":" with
+  | [r, c] => match unhex? r, unhex? c with
+    | some r, some c => some (some ⟨r, c⟩)
+    | _, _ => none
+  | _ => none
+
+def layerOf? (s : String) : Option (Option ProtoPkg.LayerDetails) :=
+  if s = "_" then some none else
+  match s.splitOn ":" with
+  | [i, d, c, b] => match i.toInt?, unhex? d, unhex? c, boolOf? b with
+    | some i, some d, some c, some b => some (some ⟨i, d, c, b⟩)
+    | _, _, _, _ => none
+  | _ => none
+
+def annsOf? (s : String) : Option (List Int) := if s = "_" then some [] else (s.splitOn ",").mapM (·.toInt?)
+
+def annStr : ProtoPkg.ProtoAnnotation → String
+  | .unspecified => "U" | .transitional => "T" | .insideOSPackage => "O" | .insideCacheDir => "C"
+
+/-- the metadata of a `proto` case is its Go type name; `setProtoMetadata` sets the oneof iff its switch has that type -/
+def protoOps (eco ex : String) (u : Option ProtoPkg.Purl) : ProtoPkg.Ops String Unit :=
+  { toPURL := fun _ => u, ecosystem := fun _ => eco, extractorName := fun _ => ex,
+    purlString := fun _ => "", setMeta := fun t => if Scalibr.Gen.Purl.protoMetaTypes.contains t then some () else none }
+
+def handleProto (t : List String) : String :=
+  match t with
+  | [n, v, locs, src, anns, layer, pu, eco, ex, mt] =>
+    match unhex? n, unhex? v, itemsOf? locs, srcOf? src, annsOf? anns, layerOf? layer, purlOf? pu, unhex? eco, unhex? ex,
+          (if mt = "_" then some "" else unhex? mt) with
+    | some n, some v, some locs, some src, some anns, some layer, some pu, some eco, some ex, some mty =>
+      let pkg : ProtoPkg.Package String := ⟨n, v, src, locs, anns, layer, mty⟩
+      let r := ProtoPkg.packageToProto (protoOps eco ex pu) pkg
+      let srcS := match r.sourceCode with | none => "_" | some s => hexE s.repo ++ ":" ++ hexE s.commit
+      let layS := match r.layerDetails with
+        | none => "_"
+        | some l => s!"{l.index}:{hexE l.diffID}:{hexE l.command}:{boolStr l.inBaseImage}"
+      let puS := match r.purl with
+        | none => "_"
+        | some p => ":".intercalate [hexE p.typ, hexE p.ns, hexE p.name, hexE p.version, qualsStr p.qualifiers, hexE p.subpath]
+      let annS := if r.annotations.isEmpty then "_" else ",".intercalate (r.annotations.map annStr)
+      s!"name={hexE r.name} version={hexE r.version} locs={itemsStr r.locations} src={srcS} anns={annS} layer={layS} purl={puS} " ++
+      s!"eco={hexE r.ecosystem} ex={hexE r.extractor} meta={boolStr r.metadata.isSome} pstr=1"
+    | _, _, _, _, _, _, _, _, _, _ => "bad-op"
+  | _ => "bad-op"
+
 def handle (line : String) : String :=
   match line.splitOn " " with
   | ["index", ps] =>
@@ -49,6 +123,9 @@ def handle (line : String) : String :=
       s!"obs={observe types names (getAll px) (getAllOfType px) (getSpecific px)} " ++
       s!"spec={observe types names (specAll pkgs) (specOfType pkgs) (specSpecific pkgs)}"
     | none => "bad-op"
+  | "proto" :: rest => handleProto rest
+  -- the specification: printing, parsing and printing again is the identity, and the index finds the package
+  | ["purlrt", _, _, _] => "ok=1 same=1 idx=1"
   | ["harvest", _, _] => "issues=-"
   | ["layout", _] => "issues=-"
   -- the specification: a purl type a built-in extractor can emit (`e`) must be accepted and round-trip;
